@@ -13,7 +13,7 @@ TB = ("Trusted: go/types + go/ssa (x/tools v0.29.0); the neo-go compiler maps th
 P = {
  "C01": ("other",
          "abstract interpretation (CNF must-fact dataflow over inlined SSA) + term agreement of legs/supply/notifications + who-may-write over key families",
-         "Decides, for all inputs and all paths of every Balance method, the step obligations of the inductive argument behind 'supply = sum of balances, no negative balance': single writers of the account family and the supply key; debit = loaded(from).Balance - amount (or delete when equal), credit = loaded(to).Balance + amount with the same amount term; Mint/Burn move the supply by exactly that amount (Burn under supply >= amount); amount >= 0 and Balance >= amount established at the stores; credit loaded after the debit store (self-transfer); refusal leaves no effect; exactly one Transfer/TransferX with the legs' arguments and no other emitter. This is a sound structural necessary condition for every history, not an execution of histories, hence 'other'.",
+         "Decides, for all inputs and all paths of every Balance method, the step obligations of the inductive argument behind 'supply = sum of balances, no negative balance': single writers of the account family and the supply key; debit = loaded(from).Balance - amount (or delete when equal), credit = loaded(to).Balance + amount with the same amount term; Mint/Burn move the supply by exactly that amount (Burn under supply >= amount); amount >= 0 and Balance >= amount established at the stores; credit loaded after the debit store (self-transfer); refusal leaves no effect; exactly one Transfer/TransferX with the legs' arguments and no other emitter. This is a sound structural necessary condition for every history, not an execution of histories, hence 'other'. Added by the mutation sweep: both legs executed exactly for 20-byte addresses at every success exit, supply written on every return of Mint/Burn, stored-or-default loaders.",
          "§5 C01"),
  "C02": ("other",
          "abstract interpretation: entailment of (not executed or witness-of-account or caller-is-account or Alphabet) at every site that can lower a balance",
@@ -25,7 +25,7 @@ P = {
          "§5 C03, App. A"),
  "C04": ("other",
          "storage-layout analysis over canonical key terms (who-may-delete, writer/remover agreement, paired indices) + must-facts for tombstone/existence guards + exit-fact equivalence of notification and state change",
-         "Decides for all paths: registry key = 'x'||sha256(blob) with the blob stored; put reachable only with the tombstone read absent, delete writes it, nothing deletes tombstones (the migration is shown harmless by key-length facts); every id-keyed family a put can populate (x, o, eACL, nnsHasAlias, m) is removed by Delete with the same id on every effectful path, the NNS record cleanup is attempted whenever the alias is removed, alias entry and NNS record are written together; owner index component produced by the same function at put and delete time; getters return only for live containers; PutSuccess/DeleteSuccess/SetEACLSuccess emitted at one site exactly with the state change. Equality with a model over interleavings is not decided, hence 'other'.",
+         "Decides for all paths: registry key = 'x'||sha256(blob) with the blob stored; put reachable only with the tombstone read absent, delete writes it, nothing deletes tombstones (the migration is shown harmless by key-length facts); every id-keyed family a put can populate (x, o, eACL, nnsHasAlias, m) is removed by Delete with the same id on every effectful path, the NNS record cleanup is attempted whenever the alias is removed, alias entry and NNS record are written together; owner index component produced by the same function at put and delete time; getters return only for live containers; PutSuccess/DeleteSuccess/SetEACLSuccess emitted at one site exactly with the state change. Equality with a model over interleavings is not decided, hence 'other'. Added by the mutation sweep: delete removes exactly when the owner lookup found an owner, list/containersOf key selection, meta flag iff metaOnChain, loaders.",
          "§5 C04"),
  "C05": ("other",
          "term agreement and must-facts at the fee transfer call; loop-shape analysis; dominance; must-execute fact at the exits of the fee setter",
@@ -33,7 +33,7 @@ P = {
          "§5 C05"),
  "C06": ("other",
          "must-facts at every effect of NewEpoch, write-set exclusion, term checks of published keys/values, loop-shape of the fan-out, membership-loop dominance of the subscription write",
-         "Decides for all paths: every effect of NewEpoch under stored epoch < epochNum; epoch key written only there with Param(epochNum); candidate families untouched; 'p'||BE4(epoch)||key -> value for every structured candidate, legacy snapshot = candidates filtered by State != Offline, tick height, one notification; one newEpoch call per stored subscriber in key order with no early exit and no catching frame, after publication; subscription written only after comparison with every stored subscriber, index = count. Model equality over histories is not decided, hence 'other'.",
+         "Decides for all paths: every effect of NewEpoch under stored epoch < epochNum; epoch key written only there with Param(epochNum); candidate families untouched; 'p'||BE4(epoch)||key -> value for every structured candidate, legacy snapshot = candidates filtered by State != Offline, tick height, one notification; one newEpoch call per stored subscriber in key order with no early exit and no catching frame, after publication; subscription written only after comparison with every stored subscriber, index = count. Model equality over histories is not decided, hence 'other'. Added by the mutation sweep: the converse of the epoch guard (own code faults only without the witness or for epochNum <= stored epoch).",
          "§5 C06"),
  "C07": ("other",
          "term agreement witnessed key = storage key, must-facts at stores, exit-fact equivalences across both candidate representations, dispatch coverage",
@@ -41,7 +41,7 @@ P = {
          "§5 C07"),
  "C08": ("other",
          "divisor-non-zero rule over storage writers, sibling agreement of retention bounds as canonical linear terms, must-facts at ring index computations",
-         "Explicitly thin. Decides: every writer of the snapshot count stores a value established > 0 (it is a stored divisor of NewEpoch and Snapshot); NewEpoch drops epoch e-N under e > N and the drop loop of UpdateSnapshotCount covers exactly [cur-old+1, cur-new]; Snapshot establishes 0 <= diff < count; UpdateSnapshotCount leaves the ring index < the new count at every exit; listNodes(e) scans the fixed-width prefix NewEpoch writes (one structurally identified fixed-width encoder for writer, reader and dropper); every normal path of UpdateSnapshotCount that shrinks the window runs the drop loop (skip-edge rule). The legacy ring rotation arithmetic (moveSnapshot positions after resizes) is a relation between run-time integers and is NOT decided.",
+         "Explicitly thin. Decides: every writer of the snapshot count stores a value established > 0 (it is a stored divisor of NewEpoch and Snapshot); NewEpoch drops epoch e-N under e > N and the drop loop of UpdateSnapshotCount covers exactly [cur-old+1, cur-new]; Snapshot establishes 0 <= diff < count; UpdateSnapshotCount leaves the ring index < the new count at every exit; listNodes(e) scans the fixed-width prefix NewEpoch writes (one structurally identified fixed-width encoder for writer, reader and dropper); every normal path of UpdateSnapshotCount that shrinks the window runs the drop loop (skip-edge rule). The legacy ring rotation arithmetic (moveSnapshot positions after resizes) is a relation between run-time integers and is NOT decided. Added by the mutation sweep: Snapshot reads slot (current - diff + count) % count and faults only outside 0..count-1; NewEpoch advances the ring by one modulo count.",
          "§5 C08"),
  "C09": ("other",
          "abstract interpretation + term agreement at the refund call of NewEpoch and the lock record of Lock",
@@ -49,7 +49,7 @@ P = {
          "§5 C09"),
  "C10": ("other",
          "per-path ledger balance over effect literals, single writers, term checks of stored records/notifications, boundary-operator agreement over all time/expiration comparisons, ordering of release before credit",
-         "Decides: supply/balances/token index written only by their helpers; at every exit of every ABI method every feasible combination of balance/supply updates is balanced; one Transfer(prev owner, new owner, 1, name) exactly with the record write; Transfer stores the loaded record with Owner := to, Admin := nil; Renew bounds (1..10 years, +365*24*3600*1000*years, ten-year cap for non-TLD); every direct comparison of block time with an Expiration puts t == expiration on the expired side; OwnerOf/Properties only for unexpired names with live parents; release of the old owner precedes the credit of the new one; Transfer and Register hand control to the receiver's callback only after all their stores. Availability over time and enumeration equality are not decided, hence 'other'.",
+         "Decides: supply/balances/token index written only by their helpers; at every exit of every ABI method every feasible combination of balance/supply updates is balanced; one Transfer(prev owner, new owner, 1, name) exactly with the record write; Transfer stores the loaded record with Owner := to, Admin := nil; Renew bounds (1..10 years, +365*24*3600*1000*years, ten-year cap for non-TLD); every direct comparison of block time with an Expiration puts t == expiration on the expired side; OwnerOf/Properties only for unexpired names with live parents; release of the old owner precedes the credit of the new one; Transfer and Register hand control to the receiver's callback only after all their stores. Availability over time and enumeration equality are not decided, hence 'other'. Added by the mutation sweep: Register (>= 2 labels, TLD present, parents alive, absent-or-expired at the store), RegisterTLD (one label, free, root marker written), Transfer/updateBalance presence and stored-or-zero start, parentExpired level loop, Renew converse.",
          "§5 C10"),
  "C11": ("other",
          "abstract interpretation: gate entailment with subject agreement between the witnessed NameState and the token id keying the changed record",
@@ -57,7 +57,7 @@ P = {
          "§5 C11"),
  "C12": ("other",
          "must-facts at record stores, exit facts for the SOA refresh, key-schema analysis of the record family, constant/argument checks of the redirect budget",
-         "Decides: id <= 15 and CNAME => id == 0 at the AddRecord store, id = count of the scan of the same (token, name, type); SetRecord only after the record with that id was read present; DeleteRecords never for SOA and deletes exactly the scanned keys; every normal path of the three mutators refreshes the SOA of the same token; Resolve starts with budget 2, recursion passes budget-1, negative cannot return; Register only with 'no conflicting parent record'; record keys are fixed width so scans are exact; resolve follows a CNAME only after the loop over the name's own records; GetRecords/GetAllRecords/resolve scan the records of a token only with its own and its parents' liveness established. Equality of the read paths with a model is not decided, hence 'other'.",
+         "Decides: id <= 15 and CNAME => id == 0 at the AddRecord store, id = count of the scan of the same (token, name, type); SetRecord only after the record with that id was read present; DeleteRecords never for SOA and deletes exactly the scanned keys; every normal path of the three mutators refreshes the SOA of the same token; Resolve starts with budget 2, recursion passes budget-1, negative cannot return; Register only with 'no conflicting parent record'; record keys are fixed width so scans are exact; resolve follows a CNAME only after the loop over the name's own records; GetRecords/GetAllRecords/resolve scan the records of a token only with its own and its parents' liveness established. Equality of the read paths with a model is not decided, hence 'other'. Added by the mutation sweep: duplicate test of AddRecord on the equal side over every record, type filters on the equal side, tokenIDFromName level loop, polarity of the parent-conflict test.",
          "§5 C12"),
  "C13": ("other",
          "AST/type lints specific to deploy/ with positive controls + SSA dominance and taint rules",
@@ -65,7 +65,7 @@ P = {
          "§5 C13"),
  "C14": ("other",
          "typestate/loop-shape analysis of the counting loop, key-schema analysis of the roster families, must-facts at acceptance and notification",
-         "Decides: roster key schemas fixed-width with len(cid) == 32 guarded; commit deletes all old n/r keys, moves every scanned u key to n||key[1:] with its value, old-n scan before any n put, each of the five loops reached on every normal path (REP writes only for a non-nil list), left only on exhaustion and with no iteration going round its operation; the signature check is reachable only through the exhausted exit of a membership loop over a per-vector collection of already counted member keys, insertion and increment only on the success branch; acceptance under counter == REP of that cid, members scanned for the vector that selects the signature list and candidates taken from that scan only (a candidate list starts empty inside the per-vector loop), true only after the REP scan is exhausted; SubmitObjectPut notifies only after verification of (cid from meta, meta, sigs) with the meta flag present. The BE16 counter byte codec is value-level and NOT decided.",
+         "Decides: roster key schemas fixed-width with len(cid) == 32 guarded; commit deletes all old n/r keys, moves every scanned u key to n||key[1:] with its value, old-n scan before any n put, each of the five loops reached on every normal path (REP writes only for a non-nil list), left only on exhaustion and with no iteration going round its operation; the signature check is reachable only through the exhausted exit of a membership loop over a per-vector collection of already counted member keys, insertion and increment only on the success branch; acceptance under counter == REP of that cid, members scanned for the vector that selects the signature list and candidates taken from that scan only (a candidate list starts empty inside the per-vector loop), true only after the REP scan is exhausted; SubmitObjectPut notifies only after verification of (cid from meta, meta, sigs) with the meta flag present. The BE16 counter byte codec is value-level and NOT decided. Added by the mutation sweep: edge-guard polarity of counting/insertion/acceptance, roster counter start (decoded last key iff there is one).",
          "§5 C14"),
  "C15": ("translation_validation",
          "translation validation by recompilation with the pinned compiler + AST/SSA checks of embed set, deploy order, version",
@@ -73,23 +73,23 @@ P = {
          "§5 C15, §3.7"),
  "C16": ("other",
          "abstract interpretation of every Update and of every _deploy with isUpdate = true: gate entailment, version-bound facts at every effect and exit, write-set inclusion in the migration table with per-entry version guards, move/re-visit rules",
-         "Decides: all 11 Update methods call management.update only under the documented majority (the NeoFS Alphabet designated for the next block for neofs/processing) with (script, manifest, data + Version); every _deploy(update) establishes PrevVersion <= v < Version at every effect and exit for v = last element of data; its write set is within the documented migration table, each step under its version guard and gone round only when the stored version is already at or above the recorded layout-change version (skip-edge rule), no fresh-deploy initialisation reachable; index-keyed in-place rewrites run over the stored count; migrations are whole moves selected by key length and re-visit safe. Read-API preservation for arbitrary prior storages is not decided, hence 'other'.",
+         "Decides: all 11 Update methods call management.update only under the documented majority (the NeoFS Alphabet designated for the next block for neofs/processing) with (script, manifest, data + Version); every _deploy(update) establishes PrevVersion <= v < Version at every effect and exit for v = last element of data; its write set is within the documented migration table, each step under its version guard and gone round only when the stored version is already at or above the recorded layout-change version (skip-edge rule), no fresh-deploy initialisation reachable; index-keyed in-place rewrites run over the stored count; migrations are whole moves selected by key length and re-visit safe. Read-API preservation for arbitrary prior storages is not decided, hence 'other'. Added by the mutation sweep: every documented migration step above PrevVersion is reachable; migration loops end only on exhaustion.",
          "§5 C16, App. C"),
  "C17": ("other",
          "must-facts at the vote call and action effects, exit-fact exclusion on the quiet return, operator-normalised boundary agreement of the 20-block window, term check of the refreshed ballot, membership-loop dominance of the voter insertion",
-         "Decides for cheque/alphabetUpdate/setConfig/innerRingCandidateRemove without Notary: voter established non-empty and the witnessed element of the stored list; action only under not(n < floor(2 len(K)/3)+1) over that same list, quiet return executes no action, RemoveVotes(same id) before the action; Vote and TryPurgeVotes use the same predicate gap > 20; a counted vote stores {id, voters+from, current height}; voter appended only after comparison with every recorded voter of the ballot with the same id. Timing over block schedules is not decided, hence 'other'.",
+         "Decides for cheque/alphabetUpdate/setConfig/innerRingCandidateRemove without Notary: voter established non-empty and the witnessed element of the stored list; action only under not(n < floor(2 len(K)/3)+1) over that same list, quiet return executes no action, RemoveVotes(same id) before the action; Vote and TryPurgeVotes use the same predicate gap > 20; a counted vote stores {id, voters+from, current height}; voter appended only after comparison with every recorded voter of the ballot with the same id. Timing over block schedules is not decided, hence 'other'. Added by the mutation sweep: actions fire at every non-quiet return; sides of the window/found tests in Vote, TryPurgeVotes, RemoveVotes index; loaders.",
          "§5 C17"),
  "C18": ("other",
          "must-facts: validation precedes state, dispatch coverage of record types, numeric limits at the accepting exits of the validators, digit fact before every decimal Atoi",
-         "Explicitly thin. Decides: Register/RegisterTLD reach effects only after the name validator accepted the name, AddRecord/SetRecord only after the type-specific validator accepted the data and only for A/CNAME/TXT/AAAA; accepting exits establish 3 <= len <= 255, fragments 1..63, the last label validated as root (<= 16, leading letter), first and last byte of every accepted fragment in [a-z0-9] and every inner byte in [a-z0-9-] (loop 1..len-2); every decimal Atoi in a validator is reached only with a digit first byte. That the scanners accept EXACTLY the well-formed strings is NOT decided.",
+         "Explicitly thin. Decides: Register/RegisterTLD reach effects only after the name validator accepted the name, AddRecord/SetRecord only after the type-specific validator accepted the data and only for A/CNAME/TXT/AAAA; accepting exits establish 3 <= len <= 255, fragments 1..63, the last label validated as root (<= 16, leading letter), first and last byte of every accepted fragment in [a-z0-9] and every inner byte in [a-z0-9-] (loop 1..len-2); every decimal Atoi in a validator is reached only with a digit first byte. That the scanners accept EXACTLY the well-formed strings is NOT decided. Added by the mutation sweep: the fragment validator and safeSplitAndCheck are decided in both directions (no rejecting exit satisfiable with all documented conditions).",
          "§5 C18"),
  "C19": ("other",
          "must-facts at notification/transfer sites, canonical arithmetic terms of the shares, loop-shape of per-node transfers",
-         "Decides: Deposit only under caller = GAS and 0 < amount <= 9000*10^8 with receiver in {20-byte data, sender}; Withdraw under W(user), 0 <= amount <= 9000, fee = configured WithdrawFee once to Processing (Notary) / once per stored Alphabet key, results checked, amount*10^8 notified; Cheque pays exactly (self -> user, amount) once, checked, same terms notified, and (without Notary) only at the 2/3+1 threshold of the witnessed Alphabet members after removing the ballot of the same id; candidate fee from the witnessed key's account with the ignore marker; Emit shares floor(g/2) and floor((g - g/2)*7/8/N) over the iterated Inner Ring list; payment callbacks accept only GAS (Alphabet also NEO). The balance identity over histories is not decided, hence 'other'.",
+         "Decides: Deposit only under caller = GAS and 0 < amount <= 9000*10^8 with receiver in {20-byte data, sender}; Withdraw under W(user), 0 <= amount <= 9000, fee = configured WithdrawFee once to Processing (Notary) / once per stored Alphabet key, results checked, amount*10^8 notified; Cheque pays exactly (self -> user, amount) once, checked, same terms notified, and (without Notary) only at the 2/3+1 threshold of the witnessed Alphabet members after removing the ballot of the same id; candidate fee from the witnessed key's account with the ignore marker; Emit shares floor(g/2) and floor((g - g/2)*7/8/N) over the iterated Inner Ring list; payment callbacks accept only GAS (Alphabet also NEO). The balance identity over histories is not decided, hence 'other'. Added by the mutation sweep: converses for the deposit callback and Withdraw, candidate charged exactly when not stored yet, every accepted payment reported.",
          "§5 C19"),
  "C20": ("other",
          "storage-layout analysis: component kinds of every Find prefix and Put key (R-prefix rule, family disjointness, put/get key agreement) + must-facts for gates, id length bound and cleanup deltas",
-         "Decides every scan of reputation, audit, container estimations, neofsid and the config maps against the R-prefix rule (four genuine findings are recorded as known findings), family disjointness of constant prefixes, key-term agreement of putters and getters, the id length bound of GetContainerSize, AddKey/RemoveKey acting on every submitted key (loop left only on exhaustion), netmap.SetConfig always storing the submitted value, the gates of putContainerSize and audit.put, the cleanup deltas 3/4 with the putter's key components, and the global cleanup examining every scanned key. Multiset equality of listings is not decided, hence 'other'.",
+         "Decides every scan of reputation, audit, container estimations, neofsid and the config maps against the R-prefix rule (four genuine findings are recorded as known findings), family disjointness of constant prefixes, key-term agreement of putters and getters, the id length bound of GetContainerSize, AddKey/RemoveKey acting on every submitted key (loop left only on exhaustion), netmap.SetConfig always storing the submitted value, the gates of putContainerSize and audit.put, the cleanup deltas 3/4 with the putter's key components, and the global cleanup examining every scanned key. Multiset equality of listings is not decided, hence 'other'. Added by the mutation sweep: reputation counter continues from the stored one.",
          "§5 C20"),
 }
 
